@@ -2280,6 +2280,7 @@ class Statements(Sequence, Immutable):
     def _create_dependency_graph(self):
         """Create a graph of dependencies between statements"""
         graph = nx.DiGraph()
+        graph.add_nodes_from(range(len(self)))
         for i in range(len(self) - 1, -1, -1):
             rhs = self[i].rhs_symbols
             for j in range(i - 1, -1, -1):
